@@ -276,8 +276,12 @@ static void make_system(vr_system_t *s, int n, int t, int mb, int l)
     s->nontrivial = b_nontrivial; s->trname = b_trname; s->describe = b_describe;
 }
 
+/* a handler was aborted (assertion / crash): the module may still hold the delayed-list lock and list items */
+static void recover(void) { PARSEC_OBJ_CONSTRUCT(&parsec_termdet_fourcounter_delayed_messages, parsec_list_t); cur = -1; }
+
 int main(int argc, char **argv)
 {
+    vr_recover = recover;
     sx_init(argc, argv, "C11");
     vr_install_guard();
     PARSEC_OBJ_CONSTRUCT(&parsec_termdet_fourcounter_delayed_messages, parsec_list_t);
